@@ -148,6 +148,41 @@ macro_rules! c08_text {
 c08_text!(c08_gs3_in_order, gs3_order(false));
 c08_text!(c08_gs3_last_first, gs3_order(true));
 
+/// GameSpy 3: three splitnum packets; the two non-final ones arrive swapped
+/// (1, 0, 2-final) - the final packet still ends the exchange, every slot is
+/// filled: the same variables as in-order delivery.
+#[cfg(kani)]
+fn gs3_three(order: [usize; 3]) {
+    let addr = any_addr_v4();
+    world().push_data(vec![0x09, 0, 0, 0, 1, b'0', 0]);
+    let mut i = 0;
+    while i < 3 {
+        let k = order[i];
+        let mut p = Enc::new();
+        p.u8(0).be32(1).cstr("splitnum").u8(if k == 2 { 0x82 } else { k as u8 }).u8(0);
+        match k {
+            0 => p.cstr("hostname").cstr("Nm").u8(0),
+            1 => p.cstr("mapname").cstr("M").u8(0),
+            _ => p.cstr("gametype").cstr("G").u8(0),
+        };
+        world().push_data(p.v);
+        i += 1;
+    }
+    let r = gamespy::three::query_vars(&addr, None);
+    match &r {
+        Ok(m) => {
+            assert!(m.len() == 3);
+            assert!(m.get("hostname").map(|v| v == "Nm").unwrap_or(false));
+            assert!(m.get("mapname").map(|v| v == "M").unwrap_or(false));
+            assert!(m.get("gametype").map(|v| v == "G").unwrap_or(false));
+        }
+        Err(_) => assert!(false),
+    }
+    core::mem::forget(r);
+}
+c08_text!(c08_gs3_three_packets_1_0_2, gs3_three([1, 0, 2]));
+c08_text!(c08_t_gs3_three_packets_in_order, gs3_three([0, 1, 2]));
+
 /// Unreal 2 players over two datagrams, swapped: the same players list.
 #[cfg(kani)]
 fn unreal2_order(swapped: bool) {
